@@ -406,7 +406,7 @@ func checkC09(sc *Scenario) *CheckResult {
 	if valid || path == "passthrough" {
 		return res
 	}
-	if view.ReadErr != "" || len(view.Msgs) < len(out.Sent.Msgs) {
+	if requestFailed(view, out) {
 		res.class("request_failed")
 		return res
 	}
@@ -525,4 +525,19 @@ func readErr(v *BackendView) string {
 		return ""
 	}
 	return v.ReadErr
+}
+
+// requestFailed: the backend could not obtain the request as sent (read error,
+// fewer messages, or an undecodable one); a compliant server fails such an RPC
+// itself, so its scripted answer is not what the client sees.
+func requestFailed(view *BackendView, out *Outcome) bool {
+	if view.ReadErr != "" || len(view.Msgs) < len(out.Sent.Msgs) {
+		return true
+	}
+	for _, m := range view.Msgs {
+		if m == nil {
+			return true
+		}
+	}
+	return false
 }
